@@ -5,7 +5,7 @@
    (remote signer), graffiti provider, auctioneer, beacon node, each relay on each attempt (with its
    latency) and submitter, any configuration, any context deadline.  All statements are over ALL
    environments, configurations and duties. *)
-From Verif Require Import Lib.Base Model.C05_Proposer Proofs.C05 Check.C05 Proofs.C05_Check.
+From Verif Require Import Lib.Base Model.C05_Proposer Proofs.C05 Check.C05 Proofs.C05_Check Proofs.C05_History.
 
 (* 1. Over a whole run (Prepare if asked, then Propose, whatever Prepare returned): a RANDAO reveal
    is asked only by Prepare, of the account the accounts provider holds for the duty's validator,
@@ -224,7 +224,9 @@ Theorem C05_agree_decides_equality_with_model :
   forall c,
     tie_free (e_deadline (c_env c)) (case_plans c) = true ->
     (agree c = true <->
-     run (c_cfg c) (c_env c) (c_duty c) (c_prepare c) = ((c_prep_events c, c_prep_ok c), c_obs c)).
+     run (c_cfg c) (c_env c) (c_duty c) (c_prepare c) = ((c_prep_events c, c_prep_ok c), c_obs c)
+     /\ d_account (duty_after (c_cfg c) (c_env c) (c_duty c) (c_prepare c)) = c_post_account c
+     /\ d_randao (duty_after (c_cfg c) (c_env c) (c_duty c) (c_prepare c)) = c_post_randao c).
 Proof. exact agree_sound. Qed.
 Print Assumptions C05_agree_decides_equality_with_model.
 
@@ -273,6 +275,78 @@ Theorem C05_P_b_sound_no_relay_no_submit :
     o_submit (c_obs c) = None.
 Proof. exact P_b_sound_no_relay_no_submit. Qed.
 Print Assumptions C05_P_b_sound_no_relay_no_submit.
+
+Theorem C05_P_b_sound_prepared_duty_own :
+  forall c, P_b c = true -> c_prepare c = true -> c_prep_ok c = true ->
+    exists a, c_post_account c = Some a /\ provided_account c = Some a
+              /\ e_sig_randao (c_env c) = Some (c_post_randao c).
+Proof. exact P_b_sound_prepared_duty_own. Qed.
+Print Assumptions C05_P_b_sound_prepared_duty_own.
+
+(* 14. Histories: one service instance handles any number of duties, the Prepare and Propose calls in
+   ANY order ([history]: each duty has its own object and the answers the environment gives while it
+   is handled).  Whatever was done for other duties before or in between:
+   (a) the k-th call, a call for duty i, asks and produces exactly what that call does on duty i's
+       own object prepared as often as duty i was prepared before -- nothing of another duty enters; *)
+Theorem C05_history_call_local :
+  forall (c : config) (ops : list op) (ds : list dstate) (k : nat) (o : op) (s : dstate),
+    nth_error ops k = Some o ->
+    nth_error ds (op_duty o) = Some s ->
+    nth_error (history c ds ops) k
+    = Some (call_alone c s (prepares_of (op_duty o) (firstn k ops)) o).
+Proof. exact history_call_local. Qed.
+Print Assumptions C05_history_call_local.
+
+(* (b) every Prepare call of a history asks for a RANDAO reveal only of the account held for ITS OWN
+       duty's validator, over the epoch of ITS OWN duty's slot (and for no block signature); *)
+Theorem C05_history_prepare_own_duty :
+  forall (c : config) (ops : list op) (ds : list dstate) (k i : nat) (s : dstate),
+    nth_error ops k = Some (OPrepare i) ->
+    nth_error ds i = Some s ->
+    exists evs ok,
+      nth_error (history c ds ops) k = Some (OutPrepare i evs ok)
+      /\ forall ev, In ev evs ->
+           is_sign_block ev = false
+           /\ (is_sign_randao ev = true ->
+               exists m a, e_accounts (s_env s) = AccOk m /\ length m = 1%nat
+                           /\ lookup_account (d_validator (s_duty s)) m = Some a
+                           /\ ev = ESignRandao a (d_slot (s_duty s) / c_spe c)
+                                               (DOMAIN_RANDAO, d_slot (s_duty s) / c_spe c)).
+Proof. exact history_prepare_own_duty. Qed.
+Print Assumptions C05_history_prepare_own_duty.
+
+(* (c) every Propose call of a history asks for no RANDAO reveal, and for a block signature only for
+       ITS OWN duty's slot and validator, over the roots of the block the beacon node returned for it,
+       which is a block of that slot; *)
+Theorem C05_history_propose_own_duty :
+  forall (c : config) (ops : list op) (ds : list dstate) (k i : nat) (s : dstate),
+    nth_error ops k = Some (OPropose i) ->
+    nth_error ds i = Some s ->
+    exists r,
+      nth_error (history c ds ops) k = Some (OutPropose i r)
+      /\ forall ev, In ev (o_events r) ->
+           is_sign_randao ev = false
+           /\ (is_sign_block ev = true ->
+               exists acct p h,
+                 e_proposal (s_env s) = POk p /\ p_block p = Some h /\ h_slot h = d_slot (s_duty s)
+                 /\ ev = ESignBlock acct (d_slot (s_duty s)) (d_validator (s_duty s))
+                                    (h_parent h) (h_state h) (h_body h)
+                                    (DOMAIN_BEACON_PROPOSER, d_slot (s_duty s) / c_spe c)).
+Proof. exact history_propose_own_duty. Qed.
+Print Assumptions C05_history_propose_own_duty.
+
+(* (d) in the orders the controller produces (a duty is prepared once -- or was filled in by hand --
+       before it is proposed) the Propose call gives exactly the result of that duty run alone, so
+       theorems 1-11 hold of every duty of every history. *)
+Theorem C05_history_propose_as_alone :
+  forall (c : config) (ops : list op) (ds : list dstate) (k i : nat) (s : dstate),
+    nth_error ops k = Some (OPropose i) ->
+    nth_error ds i = Some s ->
+    forall prep : bool,
+    prepares_of i (firstn k ops) = (if prep then 1%nat else 0%nat) ->
+    nth_error (history c ds ops) k = Some (OutPropose i (snd (run c (s_env s) (s_duty s) prep))).
+Proof. exact history_propose_as_alone. Qed.
+Print Assumptions C05_history_propose_as_alone.
 
 (* ------------------------------------------------------------------------------------------- *)
 (* Non-vacuity: concrete environments in which the hypotheses hold and the interesting branch runs *)
@@ -340,3 +414,21 @@ Example C05_example_blinded_failed_auction :
   let r := snd (run ex_cfg (ex_env ex_blinded AErr GNone ex_relays) ex_duty true) in
   o_panic r = false /\ o_submit r = None /\ o_unblind r = [[]; []].
 Proof. vm_compute. repeat split; reflexivity. Qed.
+
+(* two duties of one epoch (slots 100 and 101 of epoch 3) for two validators (7: account 3, reveal 55;
+   9: account 4, reveal 77) on one service, both prepared before either is proposed: each Prepare
+   asks its own account, each proposal request carries its own reveal *)
+Example C05_example_history :
+  let e2 := {| e_accounts := AccOk [(9, Some 4)]; e_dom_randao := true; e_sig_randao := Some 77;
+               e_graffiti := GNone; e_head := 9; e_auction := ANone; e_proposal := PErr;
+               e_dom_block := true; e_sig_block := Some 67; e_relays := []; e_submit_ok := true; e_deadline := 4000 |} in
+  let ds := [ {| s_env := ex_env ex_local ANone GNone []; s_duty := ex_duty |};
+              {| s_env := e2; s_duty := {| d_slot := 101; d_validator := 9; d_account := None; d_randao := 0 |} |} ] in
+  match history ex_cfg ds [OPrepare 0; OPrepare 1; OPropose 1; OPropose 0] with
+  | [OutPrepare 0 ev0 true; OutPrepare 1 ev1 true; OutPropose 1 r1; OutPropose 0 r0] =>
+      In (ESignRandao 3 3 (DOMAIN_RANDAO, 3)) ev0 /\ In (ESignRandao 4 3 (DOMAIN_RANDAO, 3)) ev1
+      /\ o_events r1 = [EProposal 101 77 0 90]
+      /\ In (EProposal 100 55 0 90) (o_events r0)
+  | _ => False
+  end.
+Proof. vm_compute. intuition. Qed.
